@@ -404,7 +404,7 @@ theorem ruleKeyOf_eq (cfg : Cfg) (src : Source) :
   | none => simp
   | some q =>
     simp only [buildSortedQuery_eq, ruleTail]
-    split <;> simp
+    cases (amp ((btCollect (parseQuery q)).map sortedBody)).isEmpty <;> simp
 
 /-- the parameter with empty name and empty value is alone or absent. -/
 def EmptyParamAlone (m : Map) : Prop := ¬(([], []) ∈ m ∧ 2 ≤ m.length)
@@ -422,7 +422,7 @@ theorem ruleTail_eq (m : Map) (h : EmptyParamAlone m) :
       omega
     match m, hmem, hlen with
     | [kv], hmem, _ =>
-      have : kv = ([], []) := by simpa using hmem.symm
+      have : kv = ([], []) := by simpa using Eq.symm (List.mem_singleton.mp hmem)
       subst this
       decide
   · have hb : ∀ p ∈ m.map sortedBody, p ≠ [] := by
@@ -472,11 +472,7 @@ theorem WFurl_iff (cfg : Cfg) (u : Bytes) :
   unfold WFurl EmptyParamAlone
   simp only [Bool.and_eq_true, Bool.not_eq_true', List.isEmpty_eq_false_iff, ne_eq, Bool.and_eq_false_imp,
     List.contains_iff_mem, decide_eq_true_eq, decide_eq_false_iff_not, not_and, Nat.not_le, and_assoc]
-  constructor
-  · rintro ⟨h1, h2, h3, h4⟩
-    exact ⟨h1, h2, h3, fun hm => by have := h4 hm; omega⟩
-  · rintro ⟨h1, h2, h3, h4⟩
-    exact ⟨h1, h2, h3, fun hm => by have := h4 hm; omega⟩
+  done
 
 /-- **self-match at the level of keys.** -/
 theorem ruleKey_eq_reqKey (cfg : Cfg) (u : Bytes) (hb : IsBytes u) (hwf : WFurl cfg u = true) :
@@ -488,7 +484,7 @@ theorem ruleKey_eq_reqKey (cfg : Cfg) (u : Bytes) (hb : IsBytes u) (hwf : WFurl 
   congr 1
   unfold npq
   rw [keptOf_of_no_marketing cfg _ hmk, ruleUrlSet_eq,
-    pqPath_of_ne (fun e => hpath (pctEncode_eq_nil.mp e))]
+    pqPath_of_ne (p := sanitize (splitFirst 63 u).1) (fun e => hpath (pctEncode_eq_nil.mp e))]
   have htail : (match (splitFirst 63 u).2 with
       | none => []
       | some q => ruleTail (btCollect (parseQuery q))) = ruleTail (paramsOf u) := by
